@@ -23,7 +23,7 @@ func init() {
 		Level: "model_checking",
 		Rule: "explicit-state exploration of event histories: programs = every single handler and every pair of handlers out of {key, down, up, move, animate, input} with every accepted " +
 			"signature shape (no parameters, all named, '_' in each position) and a body from a menu of 9 (print payload, update a global counter/string/array/map, shadow a global by a local, " +
-			"call a user function, return early, fresh local); events = all sequences to depth 4 (quick) / 5 (thorough) over the events whose handler exists (2 payloads each, incl. non-ASCII, " +
+			"call a user function, return early, fresh local), single-handler programs also behind three top-level preludes that leave loops and functions early before the globals are declared; events = all sequences to depth 4 (quick) / 5 (thorough) over the events whose handler exists (2 payloads each, incl. non-ASCII, " +
 			"empty, fractional and NaN). After every delivered event the cumulative platform trace is compared with (1) the reference interpreter and (2) the equivalent procedure " +
 			"program (handlers turned into functions, events into calls) run on the real evaluator. States = distinct (program, printed globals) pairs reached; transitions = deliveries.",
 		Assumptions:   []string{"handler bodies are drawn from the menu; the browser event loop (pkg/wasm) is not executed"},
@@ -128,10 +128,25 @@ var c15Globals = []pt.Stmt{
 type c15Handler struct {
 	name        string
 	shape, body int
+	top         int // index into c15Tops (taken from the first handler of a program)
+}
+
+// c15Tops are top-level preludes that run control flow before the globals are declared: whatever the top-level code did (left a
+// loop early, returned from inside nested blocks, ran a block with locals), handlers see the globals declared afterwards.
+var c15Tops = [][]pt.Stmt{
+	nil,
+	{pt.For{Var: "i", Range: []pt.Expr{pt.N(3)}, Body: []pt.Stmt{pt.If{Conds: []pt.Expr{pt.Bin("==", pt.V("i"), pt.N(1))}, Blocks: [][]pt.Stmt{{pt.Break{}}}}, pt.Print(pt.S("pre"), pt.V("i"))}}},
+	{pt.While{Cond: pt.B(true), Body: []pt.Stmt{pt.InferDecl{Name: "tmp", X: pt.N(1)}, pt.For{Var: "c", Range: []pt.Expr{pt.S("ab")}, Body: []pt.Stmt{pt.Print(pt.S("pre"), pt.V("c"), pt.V("tmp")), pt.Break{}}}, pt.Break{}}}},
+	{pt.CallStmt{C: pt.C("early")}, pt.If{Conds: []pt.Expr{pt.B(true)}, Blocks: [][]pt.Stmt{{pt.InferDecl{Name: "tmp", X: pt.S("t")}, pt.Print(pt.S("pre"), pt.V("tmp"))}}},
+		pt.Func{Name: "early", Body: []pt.Stmt{pt.For{Var: "k", Range: []pt.Expr{pt.M("a", pt.N(1), "b", pt.N(2))}, Body: []pt.Stmt{pt.While{Cond: pt.B(true), Body: []pt.Stmt{pt.Print(pt.S("pre"), pt.V("k")), pt.Return{}}}}}}}},
 }
 
 func c15Prog(hs []c15Handler) *pt.Prog {
-	stmts := append([]pt.Stmt(nil), c15Globals...)
+	var stmts []pt.Stmt
+	if len(hs) > 0 {
+		stmts = append(stmts, c15Tops[hs[0].top]...)
+	}
+	stmts = append(stmts, c15Globals...)
 	for _, h := range hs {
 		ps := c15Params(h.name, h.shape)
 		stmts = append(stmts, pt.On{Name: h.name, Params: ps, Body: c15Body(h.name, ps, h.body)})
@@ -148,7 +163,14 @@ func runC15(w *fw.Worker) {
 	for _, n := range c15Order {
 		for s := 0; s < c15Shapes(n); s++ {
 			for b := 0; b < c15Bodies; b++ {
-				progs = append(progs, []c15Handler{{n, s, b}})
+				progs = append(progs, []c15Handler{{n, s, b, 0}})
+			}
+		}
+	}
+	for _, n := range c15Order {
+		for b := 0; b < c15Bodies; b++ {
+			for top := 1; top < len(c15Tops); top++ {
+				progs = append(progs, []c15Handler{{n, 1, b, top}})
 			}
 		}
 	}
@@ -161,7 +183,7 @@ func runC15(w *fw.Worker) {
 						if w.Quick() && (sa+ba+bb)%3 != 0 {
 							continue
 						}
-						progs = append(progs, []c15Handler{{a, sa, ba}, {bn, 1, bb}})
+						progs = append(progs, []c15Handler{{a, sa, ba, 0}, {bn, 1, bb, 0}})
 					}
 				}
 			}
